@@ -53,7 +53,8 @@ func (f *fakeUnserializer) Unserialize(_ io.Reader, uo *native.UnserializeOption
 	return sbom.NewDocument(), nil
 }
 
-// recStore is a storage backend that records what reaches it.
+// recStore is a storage backend that records what reaches it. It behaves like a real backend: it holds the documents
+// stored in it (plus one it was born with, "urn:x") and answers an identifier it does not hold with an error.
 type recStore struct {
 	name      string
 	stores    int
@@ -61,17 +62,25 @@ type recStore struct {
 	lastStore *storage.StoreOptions
 	lastRetr  *storage.RetrieveOptions
 	lastID    string
+	held      map[string]bool
 }
 
 func (r *recStore) Store(d *sbom.Document, o *storage.StoreOptions) error {
 	r.stores++
 	r.lastStore, r.lastID = o, d.GetMetadata().GetId()
+	if r.held == nil {
+		r.held = map[string]bool{}
+	}
+	r.held[r.lastID] = true
 	return nil
 }
 
 func (r *recStore) Retrieve(id string, o *storage.RetrieveOptions) (*sbom.Document, error) {
 	r.retrieves++
 	r.lastRetr, r.lastID = o, id
+	if id != "urn:x" && !r.held[id] {
+		return nil, fmt.Errorf("%s holds no document %q", r.name, id)
+	}
 	d := sbom.NewDocument()
 	d.Metadata.Id = id
 	return d, nil
@@ -105,6 +114,7 @@ type writerModel struct {
 	noClobber bool
 	fo        map[string]interface{}
 	store     *recStore // nil = the library's filesystem backend
+	reconf    bool      // the public Options were edited after construction: whether later calls honour such edits is not stated (only that no other instance sees them)
 	nilOpts   bool      // nil-valued options were passed too: what those mean is not stated, so this instance's own render / store / backend state is not asserted
 }
 
@@ -115,6 +125,7 @@ type readerModel struct {
 	store       *recStore   // nil = the library's filesystem backend
 	sniffer     *recSniffer // nil = the library's detection
 	nilOpts     bool
+	reconf      bool
 }
 
 const minimalCDX15 = `{"bomFormat":"CycloneDX","specVersion":"1.5","version":1,"components":[{"bom-ref":"a","type":"library","name":"a"}]}`
@@ -171,7 +182,7 @@ func c18Property(t *rapid.T) {
 	optionedThenPlain := map[string]bool{}
 	sawOptioned := map[string]bool{}
 	doc := sbom.NewDocument()
-	doc.Metadata.Id = "urn:uuid:c18"
+	doc.Metadata.Id = "urn:uuid:c1800000-0000-4000-8000-000000000018"
 	doc.NodeList.AddRootNode(&sbom.Node{Id: "a", Name: "a"})
 
 	checkAll := func(after string) {
@@ -384,6 +395,7 @@ func c18Property(t *rapid.T) {
 				m.fo[k] = v
 				o.SetFormatOptions(k, v)
 			}
+			m.reconf = true
 			logf("writer %d reconfigured in place -> format=%q indent=%d noclobber=%v", i, m.format, m.indent, m.noClobber)
 			checkAll(hist[len(hist)-1])
 		},
@@ -397,6 +409,7 @@ func c18Property(t *rapid.T) {
 			v := fmt.Sprintf("r%d-reconf", i)
 			m.fo[k] = v
 			o.SetFormatOptions(k, v)
+			m.reconf = true
 			logf("reader %d reconfigured in place: format options[%s]=%s", i, k, v)
 			checkAll(hist[len(hist)-1])
 		},
@@ -411,6 +424,8 @@ func c18Property(t *rapid.T) {
 			err := writers[i].WriteStream(doc, nopCloser{&buf})
 			logf("writer %d.WriteStream -> err=%v", i, err)
 			switch {
+			case m.reconf:
+				hx.Class("call_on_instance_edited_after_construction")
 			case m.format == "":
 				if err == nil {
 					t.Fatalf("writer %d has no format configured but WriteStream succeeded%s", i, history())
@@ -479,6 +494,8 @@ func c18Property(t *rapid.T) {
 			err := writers[i].WriteStreamWithOptions(doc, nopCloser{&buf}, o)
 			logf("writer %d.WriteStreamWithOptions(format=%q indent=%v fo=%v) -> err=%v", i, co.format, co.indent, callFO, err)
 			switch {
+			case m.reconf:
+				hx.Class("call_on_instance_edited_after_construction")
 			case used == "":
 				if err == nil {
 					t.Fatalf("neither the call nor writer %d names a format but the write succeeded%s", i, history())
@@ -526,6 +543,12 @@ func c18Property(t *rapid.T) {
 			}
 			_, err := readers[i].ParseStream(strings.NewReader(minimalCDX15))
 			logf("reader %d.ParseStream -> err=%v", i, err)
+			if m.nilOpts || m.reconf {
+				// (a nil-valued sniffer option may select the library's own detection or none at all)
+				hx.Class("parse_on_instance_with_unstated_configuration")
+				checkAll(hist[len(hist)-1])
+				return
+			}
 			if err != nil || fu.calls != calls+1 {
 				t.Fatalf("reader %d: plain ParseStream did not reach the registered driver (err=%v)%s", i, err, history())
 			}
@@ -565,6 +588,11 @@ func c18Property(t *rapid.T) {
 			calls := fu.calls
 			_, err := readers[i].ParseStreamWithOptions(strings.NewReader(minimalCDX15), o)
 			logf("reader %d.ParseStreamWithOptions(format=%q fo=%v) -> err=%v", i, o.Format, callFO, err)
+			if (rmodels[i].nilOpts && o.Format == "") || rmodels[i].reconf {
+				hx.Class("parse_on_instance_with_unstated_configuration")
+				checkAll(hist[len(hist)-1])
+				return
+			}
 			if err != nil || fu.calls != calls+1 {
 				t.Fatalf("reader %d: ParseStreamWithOptions did not reach the registered driver (err=%v)%s", i, err, history())
 			}
@@ -577,7 +605,7 @@ func c18Property(t *rapid.T) {
 			// only writers with a recording backend (the filesystem backend would write to the working directory)
 			var cands []int
 			for i, m := range wmodels {
-				if m.store != nil && !m.nilOpts {
+				if m.store != nil && !m.nilOpts && !m.reconf {
 					cands = append(cands, i)
 				}
 			}
@@ -602,17 +630,20 @@ func c18Property(t *rapid.T) {
 				err = writers[i].Store(doc)
 			}
 			logf("writer %d.Store(withOptions=%v) -> err=%v", i, withOpts, err)
-			if err != nil {
-				t.Fatalf("writer %d: store through its recording backend failed: %v%s", i, err, history())
-			}
+			// (whether a store succeeds is not this property's business: a writer may refuse on its own, e.g. enforce
+			// NoClobber against what its backend already holds; how often it calls its own backend is not stated either)
 			for st, n := range before {
-				want := n
-				if st == m.store {
-					want++
+				if st != m.store && st.stores != n {
+					t.Fatalf("writer %d stored a document: backend %s, which belongs to another writer, saw %d calls (each writer uses the backend its own constructor was given)%s", i, st.name, st.stores-n, history())
 				}
-				if st.stores != want {
-					t.Fatalf("writer %d stored a document: backend %s saw %d calls, expected %d (each writer uses the backend its own constructor was given)%s", i, st.name, st.stores-n, want-n, history())
-				}
+			}
+			if err == nil && m.store.stores == before[m.store] {
+				t.Fatalf("writer %d reported a successful store but its own backend %s saw no call%s", i, m.store.name, history())
+			}
+			if err != nil || m.store.stores == before[m.store] {
+				hx.Class("store_refused_before_the_backend")
+				checkAll(hist[len(hist)-1])
+				return
 			}
 			if withOpts {
 				// by value: the backend may be handed a copy
@@ -629,7 +660,7 @@ func c18Property(t *rapid.T) {
 		"retrieve": func(t *rapid.T) {
 			var cands []int
 			for i, m := range rmodels {
-				if m.store != nil && !m.nilOpts {
+				if m.store != nil && !m.nilOpts && !m.reconf {
 					cands = append(cands, i)
 				}
 			}
@@ -655,17 +686,19 @@ func c18Property(t *rapid.T) {
 				d, err = readers[i].Retrieve("urn:x")
 			}
 			logf("reader %d.Retrieve(withOptions=%v) -> err=%v", i, withOpts, err)
-			if err != nil || d.GetMetadata().GetId() != "urn:x" {
-				t.Fatalf("reader %d: retrieve through its recording backend failed (err=%v)%s", i, err, history())
+			if err == nil && d.GetMetadata().GetId() != "urn:x" {
+				t.Fatalf("reader %d: retrieve of \"urn:x\" returned document %q%s", i, d.GetMetadata().GetId(), history())
 			}
 			for st, n := range before {
-				want := n
-				if st == m.store {
-					want++
+				if st != m.store && st.retrieves != n {
+					t.Fatalf("reader %d retrieved a document: backend %s, which belongs to another reader, saw %d calls%s", i, st.name, st.retrieves-n, history())
 				}
-				if st.retrieves != want {
-					t.Fatalf("reader %d retrieved a document: backend %s saw %d calls, expected %d%s", i, st.name, st.retrieves-n, want-n, history())
-				}
+			}
+			if err != nil || m.store.retrieves == before[m.store] {
+				// (refused, or served without asking the backend again: not this property's business)
+				hx.Class("retrieve_without_backend_call")
+				checkAll(hist[len(hist)-1])
+				return
 			}
 			if got := m.store.lastRetr; withOpts && (got == nil || got.BackendOptions != callRO.BackendOptions) {
 				t.Fatalf("reader %d.RetrieveWithOptions: the backend received %+v, not the retrieve options given to this call%s", i, got, history())
